@@ -1,5 +1,6 @@
 import Jose.IO
 import Jose.Own
+import Jose.Alloc
 import Jose.Props.C07
 import Jose.Props.C09
 /-
@@ -60,5 +61,110 @@ theorem hdr_alloc_failure (prot : Option Kind) (hp : Bool) :
   · cases prot with
     | none => rfl
     | some k => cases k <;> rfl
+
+/-! ### allocation-fault schedules over a whole call (the statement the fault enumeration samples)
+
+  The harness measures `N = count p` on the fault-free run and then fails allocation `k` for every
+  `k < N`.  For every call that follows the library's discipline (`Checked`: after a NULL, only a
+  reported failure can be reached) the outcome of *every* schedule is determined: -/
+open Jose.Alloc
+
+theorem allFail_exec {α : Type} (p : Prog α) (h : AllFail p) (n : Nat) (f : Option Nat) :
+    exec p n f = .failed := by
+  induction p generalizing n with
+  | ret a => exact h.elim
+  | fail => rfl
+  | crash => exact h.elim
+  | alloc k ih =>
+    simp only [exec]
+    cases hb : (f != some n)
+    · exact ih false h.2 (n + 1)
+    · exact ih true h.1 (n + 1)
+
+/-- **A fault that fires makes the call fail** — for every checked call, every starting counter and
+    every fault index that falls on one of the allocations the fault-free run performs -/
+theorem fault_fires_fails {α : Type} (p : Prog α) (h : Checked p) (n k : Nat)
+    (hlo : n ≤ k) (hhi : k < n + count p) : exec p n (some k) = .failed := by
+  induction p generalizing n with
+  | ret a => simp [count] at hhi; omega
+  | fail => rfl
+  | crash => exact h.elim
+  | alloc c ih =>
+    simp only [exec]
+    by_cases hk : k = n
+    · subst hk
+      have : (some k != some k) = false := by simp
+      rw [this]
+      exact allFail_exec _ h.2 _ _
+    · have : (some k != some n) = true := by simp [hk]
+      rw [this]
+      exact ih true h.1 (n + 1) (by omega) (by simp [count] at hhi; omega)
+
+/-- **A fault that does not fire changes nothing** (no hypothesis on the program) -/
+theorem fault_beyond_same {α : Type} (p : Prog α) (n k : Nat) (h : k < n ∨ n + count p ≤ k) :
+    exec p n (some k) = exec p n none := by
+  induction p generalizing n with
+  | ret a => rfl
+  | fail => rfl
+  | crash => rfl
+  | alloc c ih =>
+    simp only [exec]
+    have hk : k ≠ n := by
+      rcases h with h | h
+      · omega
+      · simp [count] at h; omega
+    have h1 : (some k != some n) = true := by simp [hk]
+    have h2 : ((none : Option Nat) != some n) = true := by simp
+    rw [h1, h2]
+    refine ih true (n + 1) ?_
+    rcases h with h | h
+    · left; omega
+    · right; simp [count] at h; omega
+
+/-- **Never lie, never crash**: under any single failed allocation a checked call either reports
+    failure or returns exactly what the fault-free call returns -/
+theorem never_lies {α : Type} (p : Prog α) (h : Checked p) (k : Nat) :
+    exec p 0 (some k) = .failed ∨ exec p 0 (some k) = exec p 0 none := by
+  by_cases hk : k < count p
+  · exact .inl (fault_fires_fails p h 0 k (by omega) (by omega))
+  · exact .inr (fault_beyond_same p 0 k (.inr (by omega)))
+
+/-- the fault-free run of a checked call does not crash either -/
+theorem checked_no_crash {α : Type} (p : Prog α) (h : Checked p) (n : Nat) (f : Option Nat) :
+    exec p n f ≠ .crashed := by
+  induction p generalizing n with
+  | ret a => simp [exec]
+  | fail => simp [exec]
+  | crash => exact h.elim
+  | alloc c ih =>
+    simp only [exec]
+    cases hb : (f != some n)
+    · rw [allFail_exec _ h.2]; simp
+    · exact ih true h.1 (n + 1)
+
+/-- the two calls of lib/hsh.c follow the discipline although they test their three constructors
+    together, for either outcome of the digest computation -/
+theorem hsh_checked (okRun : Bool) : Checked (hshProg okRun) ∧ Checked (hshBufProg okRun) := by
+  constructor <;> (rw [← checkedB_iff]; cases okRun <;> decide)
+
+/-- hence `jose_jwk_thp` / `jose_jwk_thp_buf`'s hashing step never lies under any fault -/
+theorem hsh_never_lies (okRun : Bool) (k : Nat) :
+    exec (hshProg okRun) 0 (some k) = .failed ∨ exec (hshProg okRun) 0 (some k) = exec (hshProg okRun) 0 none :=
+  never_lies _ (hsh_checked okRun).1 k
+
+/-- any number of individually tested allocations is checked -/
+theorem steps_checked {α : Type} (a : α) (n : Nat) : Checked (steps a n) := by
+  induction n with
+  | zero => trivial
+  | succ n ih => exact ⟨by simpa [steps, step] using ih, by simp [AllFail]⟩
+
+/-- non-vacuity: the hypotheses are met by a call that does return a result, the fault fires for
+    k = 0..3 and not for k = 4 -/
+example : exec (hshProg true) 0 none = .ok () ∧ count (hshProg true) = 4 ∧
+    exec (hshProg true) 0 (some 3) = .failed ∧ exec (hshProg true) 0 (some 4) = .ok () := by decide
+
+/-- the discipline is what carries the theorem: testing only the head of the chain (seeded change
+    C20-7) is not checked, and the schedule "first allocation fails" crashes -/
+example : checkedB (hshProgHeadOnly true) = false ∧ exec (hshProgHeadOnly true) 0 (some 0) = .crashed := by decide
 
 end Jose.Props.C20
